@@ -4,11 +4,11 @@ import os
 import re
 from pathlib import Path
 
-from loki import Subroutine, fgen, FindNodes
+from loki import Subroutine, Module, Sourcefile, fgen, FindNodes
 from loki import ir
 from loki.ir import FindLiterals
 from loki.expression import symbols as sym
-from loki.frontend import FP, Source
+from loki.frontend import FP, REGEX, Source
 from loki.frontend.preprocessing import sanitize_input, sanitize_registry
 from loki.frontend.util import sanitize_ir
 
@@ -18,7 +18,8 @@ from ..sexpr import A
 NAMES = ['IBM_DIRECTIVES', 'STRING_PP_DIRECTIVES', 'INTEGER_PP_DIRECTIVES', 'CONVERT_ENDIAN', 'OPEN_NEWUNIT',
          'FYPP ANNOTATIONS']
 PPTOKS = ['__FILE__', '__FILENAME__', '__DATE__', '__VERSION__', '__LINE__']
-CLASSES = ['macro-in-string', 'macro-in-comment', 'open-key-in-protected', 'open-convert-first', 'macro-in-identifier']
+CLASSES = ['macro-in-string', 'macro-in-comment', 'open-key-in-protected', 'open-convert-first', 'macro-in-identifier',
+           'open-continued-tail-missing']
 # repaired by fix: commits (known_findings.json status "fixed"): directive-midline, open-convert-and-newunit,
 # line-macro-in-directive — no longer classes; a recurrence is a VIOLATION
 # Python's `\s` for str patterns (the same 29 code points as `isWs` in the Lean model)
@@ -209,6 +210,103 @@ def run_reinsert(out_body, info):
 
 
 
+# ------------------------------------------------------------------ continued statements (mirror of `effectiveCont`)
+
+def cont_tail(part, S):
+    """``source.string[source.string.find(part) + len(part):].rstrip()``"""
+    return rstrip_ws(S[S.find(part) + len(part):])
+
+
+def py_effective_cont(conv, newu, S):
+    """statement text after the callbacks (reverse registry order) for a node whose source string is S;
+    second result: a tail group that ends with & is not found in the source string at callback time"""
+    missing = False
+    text = S
+    if newu:
+        g = newu[0]
+        text = g['ws'] + g['open'] + g['args1'] + (g['delim'] or '') + g['newunit_key'] + g['newunit_val'] + g['args2']
+        if rstrip_ws(g['args2']).endswith('&'):
+            missing = missing or g['args2'] not in S
+            text += cont_tail(g['args2'], S)
+        S = text
+    if conv:
+        g = conv[0]
+        text = g['ws'] + g['pre'] + g['convert'] + g['post']
+        if rstrip_ws(g['post']).endswith('&'):
+            missing = missing or g['post'] not in S
+            text += cont_tail(g['post'], S)
+    return text, missing
+
+
+def stmt_variants(lines):
+    """real sanitize_input on the statement; returns (per-line output bodies or None if lines merged, info, S_raw, S_san)"""
+    src = '\n'.join(lines) + '\n'
+    out, info = sanitize_input(source=src, frontend=FP)
+    out_lines = out.split('\n')
+    ok = out.endswith('\n') and len(out_lines) - 1 == len(lines)
+    return (out_lines[:-1] if ok else None), info, '\n'.join(lines).strip('\n'), out.strip('\n')
+
+
+# ------------------------------------------------------------------ program-unit contexts and entry points
+
+DECL = '  integer :: a, iu\n  character(len=80) :: fn\n'
+KINDS = ['sub', 'fun', 'modsub', 'modfun', 'intsub', 'intfun']
+SPEC_KINDS = ['subspec', 'funspec', 'modspec']
+ENTRIES = ['sf', 'pu', 'rx']
+
+
+def ctx_source(kind, text):
+    """the tagged text between two marker statements inside the body (or spec) of a program unit of the given kind"""
+    mark = f'  a = 10\n{text}\n  a = 20\n'
+    smark = f'  integer :: mark10\n{text}\n  integer :: mark20\n'
+    if kind == 'sub':
+        return f'subroutine s(a0)\n  integer :: a0\n{DECL}{mark}end subroutine s\n'
+    if kind == 'fun':
+        return f'function f(a0) result(r)\n  integer :: a0, r\n{DECL}{mark}  r = a\nend function f\n'
+    if kind == 'modsub':
+        return f'module m\n  implicit none\ncontains\nsubroutine s(a0)\n  integer :: a0\n{DECL}{mark}end subroutine s\nend module m\n'
+    if kind == 'modfun':
+        return ('module m\n  implicit none\ncontains\nfunction f(a0) result(r)\n  integer :: a0, r\n'
+                f'{DECL}{mark}  r = a\nend function f\nend module m\n')
+    if kind == 'intsub':
+        return ('subroutine outer(a1)\n  integer :: a1\n  call s(a1)\ncontains\nsubroutine s(a0)\n  integer :: a0\n'
+                f'{DECL}{mark}end subroutine s\nend subroutine outer\n')
+    if kind == 'intfun':
+        return ('subroutine outer(a1)\n  integer :: a1\n  a1 = f(a1)\ncontains\nfunction f(a0) result(r)\n  integer :: a0, r\n'
+                f'{DECL}{mark}  r = a\nend function f\nend subroutine outer\n')
+    if kind == 'subspec':
+        return f'subroutine s(a0)\n  integer :: a0\n{smark}  a0 = 1\nend subroutine s\n'
+    if kind == 'funspec':
+        return f'function f(a0) result(r)\n  integer :: a0, r\n{smark}  r = a0\nend function f\n'
+    if kind == 'modspec':
+        return f'module m\n  implicit none\n{smark}contains\nsubroutine s(a0)\n  integer :: a0\n  a0 = 1\nend subroutine s\nend module m\n'
+    raise ValueError(kind)
+
+
+def parse_unit(kind, entry, src):
+    """parse through one of the frontend entry points; returns (regenerated code, IR object)"""
+    if entry == 'sf':
+        obj = Sourcefile.from_source(src, frontend=FP)
+    elif entry == 'rx':
+        obj = Sourcefile.from_source(src, frontend=REGEX)
+        obj.make_complete(frontend=FP)
+    elif kind.startswith('mod'):
+        obj = Module.from_source(src, frontend=FP)
+    else:
+        obj = Subroutine.from_source(src, frontend=FP)
+    return obj.to_fortran(), obj
+
+
+def decode_tag(tag):
+    """'f' | 'f:<kind>:<entry>' -> (kind, entry) or None for correspondence-only requests"""
+    parts = str(tag).split(':')
+    if parts[0] != 'f':
+        return None
+    if len(parts) == 1:
+        return 'sub', 'pu'
+    return parts[1], parts[2]
+
+
 # ------------------------------------------------------------------ generator
 
 TRIGGERS = PPTOKS + ['@PROCESS', 'CONVERT=', 'NEWUNIT=', "CONVERT='BIG_ENDIAN'", 'newunit=iu', 'a.fypp', '# 1 x.fypp']
@@ -276,12 +374,58 @@ def structured(rng):
     return out
 
 
+def open_args(rng):
+    units = ['UNIT=iu', 'iu', 'NEWUNIT=iu', 'newunit=iu', 'NewUnit=iu']
+    convs = ["CONVERT='BIG_ENDIAN'", 'convert="little_endian"', "Convert='Big_Endian'", None]
+    files = ['FILE=fn', "FILE='data.bin'", "file='it''s'", "file='a & b'"]
+    others = ["STATUS='OLD'", "FORM='UNFORMATTED'", 'IOSTAT=a', "ACTION='READ'", 'recl=8']
+    u = rng.choice(units)
+    c = rng.choice(convs)
+    args = rng.sample(others, rng.randint(1, 3)) + [rng.choice(files)] + ([c] if c else [])
+    rng.shuffle(args)
+    if u == 'iu' or rng.random() < 0.5:
+        args = [u] + args
+    else:
+        args.insert(rng.randint(0, len(args)), u)
+    return args
+
+
+def continued_open(rng):
+    """an OPEN statement continued over 2-3 lines with & (keyword arguments before/after the break, NEWUNIT/CONVERT on the
+    first or a later line, with and without leading & on the continuation lines)"""
+    while True:
+        args = open_args(rng)
+        if len(args) >= 3:
+            break
+    nl = rng.choice([2, 2, 3]) if len(args) >= 4 else 2
+    cuts = sorted(rng.sample(range(1, len(args)), nl - 1))
+    parts = [args[i:j] for i, j in zip([0] + cuts, cuts + [len(args)])]
+    sep = rng.choice([', ', ','])
+    head = rng.choice(['OPEN(', 'open(', 'Open (', 'open( '])
+    lead = rng.choice(['', '& ', '&'])
+    ind = rng.choice(['  ', '    '])
+    lines = []
+    for i, part in enumerate(parts):
+        txt = sep.join(part)
+        if i == 0:
+            txt = ind + head + txt
+        else:
+            txt = ind + rng.choice(['  ', ' ']) + lead + txt
+        txt += (rng.choice([', &', ',&', ', &  ']) if i < len(parts) - 1 else ')')
+        lines.append(txt)
+    return '\n'.join(lines)
+
+
+SPEC_TEMPLATES = ["  character(len=40), parameter :: cs = {q}{t}{q}", "  ! spec comment {t}", "  integer :: sv ! {t}", "#define SPECMACRO {t}"]
+
+
 def generate(rng, tier):
     seen = set()
+    full = tier != 'quick'
 
-    def case(stream, body, nl, tag):
-        line = [A('line'), body, nl, A(tag)]
-        key = (body, nl, tag)
+    def case(stream, body, nl, tag, op='line'):
+        line = [A(op), body, nl, A(tag)] if op == 'line' else [A(op), body, A(tag)]
+        key = (op, body, nl, tag)
         if key in seen:
             return None
         seen.add(key)
@@ -289,11 +433,36 @@ def generate(rng, tier):
             has_ci('CONVERT=', body) or has_ci('NEWUNIT=', body)
         return Case(line, stream=stream, nontrivial=nontriv)
 
+    def contexts(k):
+        """k (kind, entry) pairs; all 18 when k is None"""
+        allc = [(kd, e) for kd in KINDS for e in ENTRIES]
+        return allc if k is None else rng.sample(allc, k)
+
     for stream, body in structured(rng):
-        c = case(stream, body, True, 'f')
-        if c:
-            yield c
+        is_open = stream == 'open'
+        if is_open and not full and rng.random() < 0.5:
+            continue                      # quick tier: half of the single-line OPEN statements
+        for kd, e in contexts(None if (is_open and full) else (2 if is_open else (3 if full else 1))):
+            c = case(stream, body, True, f'f:{kd}:{e}')
+            if c:
+                yield c
         yield Case([A('segs'), body], stream='segs', nontrivial='!' in body or "'" in body or '"' in body)
+    # statements continued with &
+    for _ in range({'quick': 70, 'thorough': 300, 'search': 150}.get(tier, 70)):
+        text = continued_open(rng)
+        for kd, e in contexts(None if full else 3):
+            c = case('open-continued', text, True, f'f:{kd}:{e}', op='stmt')
+            if c:
+                yield c
+    # specification part
+    for t in TRIGGERS[:8]:
+        for q in ("'", '"'):
+            for tpl in SPEC_TEMPLATES:
+                body = tpl.format(q=q, t=in_quote(t, q) if '{q}' in tpl else t)
+                for kd in (SPEC_KINDS if full else [rng.choice(SPEC_KINDS)]):
+                    c = case('spec', body, True, f'f:{kd}:{rng.choice(ENTRIES)}')
+                    if c:
+                        yield c
     n = {'quick': 2500, 'thorough': 60000, 'search': 15000}.get(tier, 2500)
     for _ in range(n):
         k = rng.randint(0, 9)
@@ -307,9 +476,17 @@ def generate(rng, tier):
             yield c
         if rng.random() < 0.15:
             yield Case([A('segs'), b], stream='segs', nontrivial='!' in b or "'" in b or '"' in b)
+        if rng.random() < 0.08:
+            # correspondence of the continuation branch of the callbacks on fuzzed multi-line statements
+            b2 = ''.join(rng.choice(FUZZ + [', &', '&', ' & ']) for _ in range(rng.randint(0, 6)))
+            b3 = ''.join(rng.choice(FUZZ) for _ in range(rng.randint(0, 5)))
+            text = '\n'.join([b + rng.choice(['', ', &', '&', ' & ']), b2] + ([b3] if rng.random() < 0.4 else []))
+            if not any(ch in text for ch in LINEBREAKS.replace('\n', '')):
+                c = case('fuzz-continued', text, True, 'x', op='stmt')
+                if c:
+                    yield c
 
 
-PROGRAM = ('subroutine s(a)\n  integer :: a, iu\n  character(len=80) :: fn\n  a = 10\n', '  a = 20\nend subroutine s\n')
 
 
 def strip_all_ws(s):
@@ -388,10 +565,29 @@ class C05(Prop):
         yield from generate(rng, tier)
 
     # ---- real code -> canonical response
+    @staticmethod
+    def _line_resp(out_text, per):
+        """canonical response items for one line: output text and pp_info of the six rules"""
+        def hits(name):
+            return [[A('pp'), d['pp']] if d['pp'] is not None else [A('else'), d['else']] for d in per[name]]
+        conv, newu = per['CONVERT_ENDIAN'], per['OPEN_NEWUNIT']
+        assert len(conv) <= 1 and len(newu) <= 1
+        return [out_text,
+                [A('ibm'), bool(per['IBM_DIRECTIVES'])],
+                [A('strpp')] + hits('STRING_PP_DIRECTIVES'),
+                [A('intpp')] + hits('INTEGER_PP_DIRECTIVES'),
+                [A('convert'), [conv[0][k] for k in ('ws', 'pre', 'convert', 'post')] if conv else A('none')],
+                [A('newunit'), [newu[0]['ws'], newu[0]['open'], newu[0]['args1'],
+                                newu[0]['delim'] if newu[0]['delim'] is not None else A('none'),
+                                newu[0]['newunit_key'], newu[0]['newunit_val'], newu[0]['args2']] if newu else A('none')],
+                [A('fypp'), bool(per['FYPP ANNOTATIONS'])]]
+
     def impl(self, req):
         op = str(req[0])
         if op == 'segs':
             return [A('ok')] + [[c, A(k), p] for c, k, p in segments(req[1])]
+        if op == 'stmt':
+            return self._impl_stmt(req[1])
         body, nl = req[1], str(req[2]).lower() == 'true'
         if any(c in body for c in LINEBREAKS):
             return [A('error'), A('multiline')]
@@ -401,21 +597,29 @@ class C05(Prop):
         newu = per['OPEN_NEWUNIT']
         amp = (bool(conv) and rstrip_ws(conv[0]['post']).endswith('&')) or (bool(newu) and rstrip_ws(newu[0]['args2']).endswith('&'))
         eff = A('amp') if amp else run_reinsert(out_body, info)
-        def hits(name):
-            return [[A('pp'), d['pp']] if d['pp'] is not None else [A('else'), d['else']] for d in per[name]]
-        strpp = hits('STRING_PP_DIRECTIVES')
-        assert len(conv) <= 1 and len(newu) <= 1
-        return [A('ok'), out,
-                [A('ibm'), bool(per['IBM_DIRECTIVES'])],
-                [A('strpp')] + strpp,
-                [A('intpp')] + hits('INTEGER_PP_DIRECTIVES'),
-                [A('convert'), [conv[0][k] for k in ('ws', 'pre', 'convert', 'post')] if conv else A('none')],
-                [A('newunit'), [newu[0]['ws'], newu[0]['open'], newu[0]['args1'],
-                                newu[0]['delim'] if newu[0]['delim'] is not None else A('none'),
-                                newu[0]['newunit_key'], newu[0]['newunit_val'], newu[0]['args2']] if newu else A('none')],
-                [A('fypp'), bool(per['FYPP ANNOTATIONS'])],
-                [A('effective'), eff],
-                [A('known')] + known_flags(body, per)]
+        return [A('ok')] + self._line_resp(out, per) + [[A('effective'), eff], [A('known')] + known_flags(body, per)]
+
+    def _impl_stmt(self, text):
+        """a statement of several lines: real sanitize_input on all lines, real sanitize_ir on a node that carries the raw /
+        the sanitised statement as source string (the two situations the frontend entry points create)"""
+        lines = text.split('\n')
+        if any(c in l for l in lines for c in LINEBREAKS):
+            return [A('error'), A('multiline')]
+        outs, info, s_raw, s_san = stmt_variants(lines)
+        if outs is None:
+            return [A('error'), A('merged')]
+        resp = []
+        for i, o in enumerate(outs):
+            per = {n: list(info[n].get(i + 1, [])) for n in NAMES}
+            resp.append(self._line_resp(o + '\n', per))
+        effs, miss = [], []
+        per1 = {n: list(info[n].get(1, [])) for n in NAMES}
+        for S in (s_raw, s_san):
+            node = ir.GenericStmt(text=S, source=Source(lines=(1, len(lines)), string=S))
+            sec = sanitize_ir(ir.Section(body=(node,)), FP, pp_registry=sanitize_registry[FP], pp_info=info)
+            effs.append(FindNodes(ir.GenericStmt).visit(sec)[0].text)
+            miss.append(py_effective_cont(per1['CONVERT_ENDIAN'], per1['OPEN_NEWUNIT'], S)[1])
+        return [A('ok'), resp, [A('effective'), effs[0], effs[1]], [A('missing'), miss[0], miss[1]]]
 
     # ---- direct oracle
     def classify(self, body):
@@ -426,34 +630,61 @@ class C05(Prop):
             return []
         return [c for c, f in zip(CLASSES, known_flags(body, per)) if f]
 
+    def classify_stmt(self, lines, entry):
+        cls = []
+        for l in lines:
+            for c in self.classify(l):
+                if c not in cls:
+                    cls.append(c)
+        if len(lines) > 1:
+            outs, info, s_raw, s_san = stmt_variants(lines)
+            per1 = {n: list(info[n].get(1, [])) for n in NAMES}
+            S = s_raw if entry == 'sf' else s_san      # Sourcefile keeps the raw text, from_source / make_complete the sanitised one
+            if py_effective_cont(per1['CONVERT_ENDIAN'], per1['OPEN_NEWUNIT'], S)[1]:
+                cls.append('open-continued-tail-missing')
+        return cls
+
     def oracle(self, req):
-        if str(req[0]) != 'line' or len(req) < 4 or str(req[3]) != 'f':
+        op = str(req[0])
+        if op not in ('line', 'stmt'):
             return []
-        body = req[1]
-        cls = (self.classify(body) or [None])[0]
-        src = PROGRAM[0] + body + '\n' + PROGRAM[1]
+        ctx = decode_tag(req[3] if op == 'line' else req[2])
+        if ctx is None:
+            return []
+        kind, entry = ctx
+        text = req[1]
+        lines = text.split('\n')
+        cls = (self.classify_stmt(lines, entry) or [None])[0]
+        src = ctx_source(kind, text)
+        where = f'[{kind} via {entry}]'
         try:
-            routine = Subroutine.from_source(src, frontend=FP)
-            code = fgen(routine)
+            code, obj = parse_unit(kind, entry, src)
+            Sourcefile.from_source(code, frontend=FP)      # the regenerated program parses again
         except Exception as e:  # pylint: disable=broad-except
-            return [Failure(f'the program no longer parses/regenerates with line {body!r}: {type(e).__name__} {str(e)[:120]!r}', cls)]
-        lines = code.splitlines()
+            return [Failure(f'{where} the program no longer parses/regenerates with {text!r}: {type(e).__name__} {str(e)[:120]!r}', cls)]
+        out = code.splitlines()
+        m0, m1 = ('integer :: mark10', 'integer :: mark20') if kind in SPEC_KINDS else ('a = 10', 'a = 20')
         try:
-            i0 = next(i for i, l in enumerate(lines) if l.strip().lower() == 'a = 10')
-            i1 = next(i for i, l in enumerate(lines) if l.strip().lower() == 'a = 20')
+            i0 = next(i for i, l in enumerate(out) if l.strip().lower() == m0)
+            i1 = next(i for i, l in enumerate(out) if l.strip().lower() == m1)
         except StopIteration:
-            return [Failure(f'marker statements lost around line {body!r}', cls)]
-        region = lines[i0 + 1:i1]
+            return [Failure(f'{where} marker statements lost around {text!r}', cls)]
+        region = out[i0 + 1:i1]
         fails = []
-        lits, com = literals_and_comments(body)
-        sb = body.strip()
+        sb = text.strip()
         if sb.startswith('#'):
             # a preprocessor directive is untargeted text as a whole (annotations of Fypp are the target of rule 6)
             if not re.match(r'# [1-9].*".*\.(?:fypp|hypp)"(?:\s+\d+)?$', sb) and sb not in [l.strip() for l in region]:
-                fails.append(Failure(f'directive line {sb!r} regenerated as {[l.strip() for l in region]!r}', cls))
+                fails.append(Failure(f'{where} directive line {sb!r} regenerated as {[l.strip() for l in region]!r}', cls))
             return fails
         if sb.startswith('@PROCESS'):
             return fails   # IBM directive line: the target of rule 1 (dropped)
+        lits, coms = [], []
+        for l in lines:
+            a, b = literals_and_comments(l)
+            lits += a
+            if b is not None:
+                coms.append(b.rstrip())
         rl, rc = [], []
         for l in region:
             a, b = literals_and_comments(l)
@@ -462,40 +693,57 @@ class C05(Prop):
                 rc.append(b.rstrip())
         for v in lits:
             if v not in rl:
-                fails.append(Failure(f'string literal {v!r} of line {body!r} is regenerated as {region!r}', cls))
+                fails.append(Failure(f'{where} string literal {v!r} of {text!r} is regenerated as {region!r}', cls))
                 break
-        if com is not None and com.rstrip() not in rc:
-            fails.append(Failure(f'comment {com.rstrip()!r} of line {body!r} is regenerated as {region!r}', cls))
+        for com in coms:
+            if com not in rc:
+                fails.append(Failure(f'{where} comment {com!r} of {text!r} is regenerated as {region!r}', cls))
         # IR level: literal values of expressions
-        irl = [l.value for l in FindLiterals().visit(routine.body) if isinstance(l, sym.StringLiteral)]
-        nodes = [n for n in routine.body.body]
-        if any(isinstance(n, (ir.Assignment, ir.CallStatement, ir.Conditional)) for n in nodes[1:-1]) and \
-                not any(isinstance(n, ir.GenericStmt) for n in nodes[1:-1]):
-            irv = set(irl) | {x.replace("''", "'") for x in irl} | {x.replace('""', '"') for x in irl}
-            for v in lits:
-                if v not in irv and not fails:
-                    fails.append(Failure(f'string literal {v!r} of line {body!r} has IR values {irl!r}', cls))
+        if kind not in SPEC_KINDS:
+            routines = [r for r in (obj.all_subroutines if isinstance(obj, Sourcefile) else
+                                    ([obj] + list(getattr(obj, 'members', ())) + list(getattr(obj, 'subroutines', ()))))]
+            routines += [m for r in list(routines) for m in getattr(r, 'members', ())]
+            target = [r for r in routines if r.name.lower() in ('s', 'f')]
+            if target:
+                body_nodes = list(target[0].body.body)
+                irl = [l.value for l in FindLiterals().visit(target[0].body) if isinstance(l, sym.StringLiteral)]
+                if any(isinstance(n, (ir.Assignment, ir.CallStatement, ir.Conditional)) for n in body_nodes[1:-1]) and \
+                        not any(isinstance(n, ir.GenericStmt) for n in body_nodes[1:-1]):
+                    irv = set(irl) | {x.replace("''", "'") for x in irl} | {x.replace('""', '"') for x in irl}
+                    for v in lits:
+                        if v not in irv and not fails:
+                            fails.append(Failure(f'{where} string literal {v!r} of {text!r} has IR values {irl!r}', cls))
         # identifiers that merely contain a macro token keep their name
-        for code, _, _ in segments(body):
-            for ident in re.findall(r'[A-Za-z_][A-Za-z0-9_]*', code):
-                if ident not in PPTOKS and any(t in ident for t in PPTOKS) and \
-                        ident.lower() not in ''.join(region).lower():
-                    fails.append(Failure(f'identifier {ident!r} of line {body!r} is regenerated as {region!r}', cls))
-        if open_head(body):
+        for l in lines:
+            for code_part, _, _ in segments(l):
+                for ident in re.findall(r'[A-Za-z_][A-Za-z0-9_]*', code_part):
+                    if ident not in PPTOKS and any(t in ident for t in PPTOKS) and \
+                            ident.lower() not in ''.join(region).lower():
+                        fails.append(Failure(f'{where} identifier {ident!r} of {text!r} is regenerated as {region!r}', cls))
+        if open_head(lines[0]):
             # the targeted arguments must be back in the regenerated statement
-            _, _, per = run_sanitize(body, True, strict=False)
+            _, info, _, _ = stmt_variants(lines)
+            per = {n: list(info[n].get(1, [])) for n in NAMES}
             joined = strip_all_ws(''.join(region))
             for name, keys in (('CONVERT_ENDIAN', ('convert',)), ('OPEN_NEWUNIT', ('newunit_key', 'newunit_val'))):
                 for g in per[name]:
                     arg = strip_all_ws(''.join(g[k] for k in keys)).lstrip(',')
                     if arg not in joined:
-                        fails.append(Failure(f'OPEN argument {arg!r} of {sb!r} is not restored: {region!r}', cls))
+                        fails.append(Failure(f'{where} OPEN argument {arg!r} of {sb!r} is not restored: {region!r}', cls))
+            # every specifier keyword of the statement is still there (NEWUNIT= must not turn into UNIT=)
+            code_only = ''.join(c for l in lines for c, _, _ in segments(l))
+            low = strip_all_ws(''.join(''.join(c for c, _, _ in segments(l)) for l in region)).lower()
+            for kw in re.findall(r'([A-Za-z]+)\s*=', code_only):
+                if not re.search(r'(?<![a-z])' + kw.lower() + '=', low):
+                    fails.append(Failure(f'{where} OPEN specifier {kw}= of {sb!r} is missing from {region!r}', cls))
+                    break
             if (per['CONVERT_ENDIAN'] or per['OPEN_NEWUNIT']) and not fails:
                 # the statement node of a sanitised OPEN carries its text verbatim: the whole statement must be back
-                stmt = strip_all_ws(''.join(c + (p if k != 'comment' else '') for c, k, p in segments(body)))
-                got = [strip_all_ws(''.join(c + (p if k != 'comment' else '') for c, k, p in segments(l))) for l in region]
-                if stmt not in got:
-                    fails.append(Failure(f'OPEN statement {sb!r} is regenerated as {region!r}', cls))
+                def norm(ls):
+                    return [strip_all_ws(''.join(c + (p if k != 'comment' else '') for c, k, p in segments(l))) for l in ls]
+                want, got = norm(lines), norm(region)
+                if not any(got[i:i + len(want)] == want for i in range(len(got) - len(want) + 1)):
+                    fails.append(Failure(f'{where} OPEN statement {sb!r} is regenerated as {region!r}', cls))
         return fails
 
 
